@@ -33,6 +33,7 @@ package cesium
 //@ ignore func keyToDirName() string
 //@ # removeChannel: success means the key is in neither map; no other key is touched; a failure touches nothing
 //@ func (db *DB) removeChannel(ch ChannelKey) (err error)
+//@   pragma opaque_calls Channel
 //@   # a key is a unary or a virtual channel, never both
 //@   requires_inv forall k ChannelKey :: !(__in(db.mu.dbs.unary, k) && __in(db.mu.dbs.virtual, k))
 //@   ensures err == nil ==> !__in(db.mu.dbs.unary, ch) && !__in(db.mu.dbs.virtual, ch)
@@ -43,6 +44,7 @@ package cesium
 //@ # DeleteChannels: success means every listed key is gone from the engine, unary and virtual
 //@ # alike; keys that are not listed stay
 //@ func (db *DB) DeleteChannels(chs []ChannelKey) (err error)
+//@   pragma opaque_calls Channel
 //@   requires_inv forall k ChannelKey :: !(__in(db.mu.dbs.unary, k) && __in(db.mu.dbs.virtual, k))
 //@   ensures err == nil ==> (forall j int :: 0 <= j && j < len(chs) ==> !__in(db.mu.dbs.unary, chs[j]) && !__in(db.mu.dbs.virtual, chs[j]))
 //@   ensures forall k ChannelKey :: (forall j int :: 0 <= j && j < len(chs) ==> chs[j] != k) ==> __in(db.mu.dbs.unary, k) == old(__in(db.mu.dbs.unary, k)) && __in(db.mu.dbs.virtual, k) == old(__in(db.mu.dbs.virtual, k))
